@@ -31,12 +31,26 @@ on the wire outranks every wildcarded one), and may go to the controller only wh
           sent between the flow-mod and the lookups; reading state must not change matching
   part O  packet OBJECTS assembled with the pox.lib.packet constructors (never parsed), own / no / new VLAN tag, handed to
           rx_packet: looked up like their packed bytes and like the reference says for those bytes
+  part V  value domains (mc/refs/c03_domains.py): a header field runs through its WHOLE domain in the frame and in the match - IP
+          protocol 0..255, ARP opcode 0..255 (+ wide opcodes), ToS byte 0..255, ICMP type / code 0..255, VLAN id bits x priority x
+          CFI, TCP/UDP port bits and the ports that have payload parsers, registered Ethernet types; for each frame: the match on
+          the field alone (prerequisites specified), on a neighbouring value, with the deeper-layer wildcard bits CLEAR (zeros /
+          frame's values or garbage in them: what a foreign controller sends for ignored fields), the exact match (zeros / garbage
+          in fields the frame lacks); probed with the frame, its neighbour in the domain and a TCP frame; the exact matches also
+          at priority 1 under a catch-all entry of priority 0xffff
+  part E  exactness lattice: for six frames (TCP, VLAN/UDP, ICMP, GRE, ARP, non-IP) the exact match of the frame weakened by every
+          single wildcard "atom" - each wildcard bit, each nw_src / nw_dst counter 1..63 - and by combinations of them, paired with
+          a catch-all entry (and with the exact match) at a higher / lower priority, in both insertion orders: an entry that has
+          any wildcard the specification would honour ranks by its priority field, only the wildcards word 0 outranks; entries whose
+          only wildcard bits sit on protocol-ignored fields may rank either way (statement silent).  The same walk gives every
+          prefix length 0..63 on each address a single-entry matching check (bit just inside / just below the prefix flipped)
 """
 import itertools, os, traceback
 from mc.engine import pmap
 from mc.report import Report
 from mc.refs import ofwire as W
 from mc.refs import refmatch as R
+from mc.refs import c03_domains as D
 from mc.refs.reftable import matches as ref_matches, _mask
 from mc.props.c04 import ref_match        # wire match (parsed) -> reference dict with the prerequisite rule
 
@@ -319,7 +333,9 @@ def widen (mbytes, fields_to_wildcard):
 def key_frame (fr):
   """Frame name as used in violation keys: all cuts of one frame share a name (the length is in the replay)."""
   i = fr.name.find("[:")
-  return fr.name if i < 0 else fr.name[:i] + "[cut]"
+  if i >= 0: return fr.name[:i] + "[cut]"
+  i = fr.name.find("[")                     # a frame of a value domain: the value is in the replay
+  return fr.name if i < 0 else fr.name[:i] + "[*]"
 
 
 class Checker (object):
@@ -628,6 +644,353 @@ def _work_b (item):
       ck.check_table(tuple(prefix) + ext)
   ck.rep.extra["switch_rebuilds"] = ck.sw.resets
   return ck.rep
+
+
+# ---------------------------------------------------------------------------------------------
+# tables given as raw match bytes (parts V and E): three-valued exactness
+# ---------------------------------------------------------------------------------------------
+def wildcarded_fields (pm):
+  """The wildcards of a wire match that the specification would honour: fields that would be compared if they were not
+  wildcarded (the prerequisite rule of ref_match), in canonical order; addresses as <field>-prefix (counter 1..31) or
+  <field>-all (32..63)."""
+  w = pm["wildcards"]
+  capable = list(R.DL_FIELDS)
+  if not w & BIT["dl_type"]:
+    if pm["dl_type"] in (0x0800, 0x0806): capable += ["nw_proto", "nw_src", "nw_dst"]
+    if pm["dl_type"] == 0x0800:
+      capable.append("nw_tos")
+      if not w & BIT["nw_proto"] and pm["nw_proto"] in (1, 6, 17): capable += ["tp_src", "tp_dst"]
+  out = []
+  for f in FIELDS:
+    if f not in capable: continue
+    if f in SHIFT:
+      n = (w >> SHIFT[f]) & 0x3f
+      if n >= 32: out.append(f + "-all")
+      elif n: out.append(f + "-prefix")
+    elif w & BIT[f]: out.append(f)
+  return tuple(out)
+
+
+def exactness (pm):
+  """'exact': wildcards word 0 on the wire.  'wildcarded': a field the specification would compare is wildcarded (an address
+  prefix shorter than 32 bits included).  'ignored-only': wildcard bits are set, but only on fields the prerequisite rule
+  ignores anyway - the statement does not say which of the two such an entry is, so the oracle allows both."""
+  if not pm["wildcards"] & R.OFPFW_ALL: return "exact", ()
+  wild = wildcarded_fields(pm)
+  return ("wildcarded", wild) if wild else ("ignored-only", ())
+
+
+INF = (1 << 16) + 1
+
+class RawTableChecker (object):
+  """Tables whose entries are given as (wire match bytes, priority, label); entry i outputs to port OUT+i."""
+  def __init__ (self, rep, frames):
+    self.rep = rep
+    self.sw = Sw()
+    self.frames = frames
+    self.ext = dict((fr.name, R.extract(fr.data, fr.in_port)[0]) for fr in frames)
+    self.memo = {}
+    self.single = None
+    self.single_memo = {}
+    self.control_memo = {}
+    self.n = 0
+
+  def judge (self, mb):
+    if mb not in self.memo:
+      pm = W.parse_match(mb)
+      self.memo[mb] = (ref_match(pm),) + exactness(pm)
+    return self.memo[mb]
+
+  def entry_misjudged (self, mb, fr):
+    """Does the switch, with this entry ALONE in the table, already disagree with the reference about the frame?  Then it
+    is reported under the match clauses (by Checker) and says nothing about the order of lookup."""
+    k = (mb, fr.name)
+    if k not in self.single_memo:
+      if self.single is None: self.single = Checker(self.rep, self.frames)
+      before = sum(v["count"] for v in self.rep.violations.values())
+      self.single.check_match(mb, [fr])
+      self.single_memo[k] = sum(v["count"] for v in self.rep.violations.values()) != before
+    return self.single_memo[k]
+
+  def plainly_wildcarded_wins_too (self, entries, g, fr, tag):
+    """Control experiment for a wildcarded entry that beat a higher priority: the same table with in_port, dl_src and dl_dst
+    wildcarded in that entry in addition (memoised per table shape)."""
+    k = (fr.name, g, tuple((p, l) for _, p, l in entries))
+    if k not in self.control_memo:
+      t = tuple((widen(mb, ("in_port", "dl_src", "dl_dst")), p, l) if i == g else (mb, p, l) for i, (mb, p, l) in enumerate(entries))
+      v = self.check(t, fr, tag, record=False, control=False)
+      self.control_memo[k] = v is not None and v[0].startswith("lookup:wildcarded-entry-outranks-higher-priority")
+    return self.control_memo[k]
+
+  def check (self, entries, fr, tag, record=True, control=True):
+    """Returns None, or (clause, description, replay data) of the violated clause (record=False: without reporting it)."""
+    rep, sw = self.rep, self.sw
+    fields = self.ext[fr.name]
+    rep.state_count += 1
+    rdata = dict(kind="rawtable", entries=[[mb.hex(), prio, lab] for mb, prio, lab in entries], frame=fr.name)
+    info = []
+    for i, (mb, prio, lab) in enumerate(entries):
+      r = sw.install(mb, prio, OUT + i)
+      rep.transitions += 1
+      if r is not None:
+        sw.reset()
+        v = ("install:%s" % (r[1] if r[0] == "raise" else "refused"), "ADD %s priority %d: %r" % (mb.hex(), prio, r), rdata)
+        if record: rep.violation("%s:%s" % (PID, v[0]), v[1], v[2])
+        return v
+      m, kind, wild = self.judge(mb)
+      info.append((i, prio, lab, kind, wild, ref_matches(m, fields)))
+    got = sw.probe(fr.data, fr.in_port)
+    rep.evaluations += 1; rep.transitions += 1
+    sw.clear()
+    ms = [e for e in info if e[5]]
+    amb = [e for e in ms if e[3] == "ignored-only"]
+    allowed = set()
+    for choice in itertools.product((False, True), repeat=len(amb)):
+      ex = set(e[0] for e, c in zip(amb, choice) if c) | set(e[0] for e in ms if e[3] == "exact")
+      eff = lambda e: INF if e[0] in ex else e[1]
+      top = max(eff(e) for e in ms) if ms else None
+      allowed |= set(e[0] for e in ms if eff(e) == top)
+    g = got[1][0] - OUT if got[0] == "out" and len(got[1]) == 1 and 0 <= got[1][0] - OUT < len(info) else None
+    rep.outcome((tag, key_frame(fr), tuple((e[3], e[4], e[1], e[5]) for e in info), g if g is not None else got))
+    self.n += 1
+    if self.n % 20000 == 1:
+      rep.sample(dict(part=tag, table=[dict(match=mb.hex(), priority=prio, exactness=self.judge(mb)[1],
+                                            honoured_wildcards=list(self.judge(mb)[2])) for mb, prio, lab in entries],
+                      frame=fr.name, allowed=[info[i][2] for i in sorted(allowed)] or "packet-in",
+                      switch=info[g][2] if g is not None else list(got)))
+    if (got == ("miss",) and not allowed) or (g is not None and g in allowed): return None
+    desc = "table (insertion order) %s, frame %s on port %d" % (
+      ["%s@%d[%s%s]" % (e[2], e[1], e[3], ":" + "+".join(e[4]) if e[4] else "") for e in info], fr.name, fr.in_port)
+    if got[0] == "raise":
+      clause = "raises:" + got[1]; what = "%s: rx raised %s" % (desc, got[1])
+    else:
+      if any([self.entry_misjudged(mb, fr) for mb in sorted(set(e[0] for e in entries))]): return None
+      best = [info[i] for i in sorted(allowed)]
+      if got == ("miss",):
+        clause = "lookup:false-miss:entry=%s" % best[0][2]
+        what = "%s: packet-in although %s match" % (desc, [e[2] for e in ms])
+      elif g is None:
+        clause = "lookup:odd-observation"; what = "%s: observed %r" % (desc, got)
+      elif not info[g][5]:
+        clause = "lookup:false-hit:entry=%s" % info[g][2]
+        what = "%s: forwarded by %s@%d, which does not match the frame" % (desc, info[g][2], info[g][1])
+      elif any(e[3] == "exact" for e in best):
+        x = [e for e in best if e[3] == "exact"][0]
+        clause = "lookup:wire-exact-outranked:%s" % x[2]
+        what = ("%s: forwarded by entry %s@%d (%s) although the exact-match entry %s@%d (wildcards word 0 on the wire) matches"
+                % (desc, info[g][2], info[g][1], info[g][3], x[2], x[1]))
+      elif info[g][3] == "wildcarded" and info[g][1] < best[0][1] and control and self.plainly_wildcarded_wins_too(entries, g, fr, tag):
+        # not a matter of WHICH wildcard the entry has: the order of the table is wrong for ordinary wildcarded entries as well
+        clause = "lookup:not-highest-priority"
+        what = "%s: forwarded by %s@%d, highest-priority matching entries are %s (the same happens with in_port, dl_src and dl_dst " \
+               "wildcarded in addition)" % (desc, info[g][2], info[g][1], ["%s@%d" % (e[2], e[1]) for e in best])
+      elif info[g][3] == "wildcarded" and info[g][1] < best[0][1]:
+        wild = info[g][4]
+        clause = "lookup:wildcarded-entry-outranks-higher-priority:wild=%s" % ("+".join(wild) if len(wild) == 1 or all(x.startswith(("nw_src-", "nw_dst-")) for x in wild) else "several")
+        what = ("%s: forwarded by %s@%d, a wildcarded entry (wildcards the specification honours: %s) of lower priority than the "
+                "matching entry %s@%d" % (desc, info[g][2], info[g][1], ", ".join(wild), best[0][2], best[0][1]))
+      else:
+        clause = "lookup:not-highest-priority"
+        what = "%s: forwarded by %s@%d, highest-priority matching entries are %s" % (desc, info[g][2], info[g][1],
+                                                                                    ["%s@%d" % (e[2], e[1]) for e in best])
+    if record: rep.violation("%s:%s" % (PID, clause), what, rdata)
+    return (clause, what, rdata)
+
+
+ALL_MATCH = W.match()
+EXACT_LABEL = {"tcp": "exact-tcp", "arp-req": "exact-arp", "other": "exact-other", "ip-gre": "exact-gre"}
+def exact_label (fr): return EXACT_LABEL.get(fr.name) or "exact-" + key_frame(fr)
+
+
+# ---------------------------------------------------------------------------------------------
+# value domains (part V)
+# ---------------------------------------------------------------------------------------------
+DEEPER = dict(dl_type=R.NW_FIELDS + R.TP_FIELDS, nw_proto=R.TP_FIELDS, nw_tos=R.TP_FIELDS, nw_src=R.TP_FIELDS, nw_dst=R.TP_FIELDS)
+
+def domain_matches (fields, app, nfields, axis):
+  """[(label, wire bytes)] for one frame of a value domain.  fields/app: what the reference extracts from the frame;
+  nfields: the same for its neighbour in the domain."""
+  axes = [f for f in FIELDS if f in app and fields[f] != nfields[f]] or [axis]
+  vg = dict(fields)
+  for f in FIELDS:
+    if f not in app: vg[f] = GARBAGE[f]
+  out = []
+  for f in axes:
+    kw = {f: fields[f]}
+    if f.startswith(("nw_", "tp_")): kw["dl_type"] = fields["dl_type"]
+    if f.startswith("tp_"): kw["nw_proto"] = fields["nw_proto"]
+    out.append((f, W.match_fields(**kw)))
+    if nfields[f] != fields[f]:
+      kn = dict(kw); kn[f] = nfields[f]
+      out.append((f + "~", W.match_fields(**kn)))
+    deeper = DEEPER.get(f, ())
+    if deeper:
+      # the deeper-layer wildcard bits CLEAR: zeros in them / the frame's own values (garbage where the frame has no such field)
+      w = W.parse_match(W.match_fields(**kw))["wildcards"]
+      for g in deeper:
+        if g in SHIFT: w &= ~(0x3f << SHIFT[g])
+        else: w &= ~BIT[g]
+      for tag, src in (("0", ZERO), ("v", vg)):
+        v = dict(ZERO); v.update(kw)
+        for g in deeper: v[g] = src[g]
+        out.append((f + "+deeper" + tag, W.match(wildcards=w, **v)))
+        for g in ("tp_src", "tp_dst"):
+          # one transport bit clear, the other set
+          if g in deeper and f != "dl_type": out.append((f + "+" + g + tag, W.match(wildcards=w | BIT["tp_dst" if g == "tp_src" else "tp_src"], **v)))
+  out.append(("exact", W.match(wildcards=0, **fields)))
+  out.append(("exact-garbage", W.match(wildcards=0, **vg)))
+  return out
+
+
+_DOMS = {}
+_BYNAME = {}
+def get_domain (dn, thorough):
+  """Built once per process (the parent builds them all before the workers are forked)."""
+  if (dn, thorough) not in _DOMS: _DOMS[(dn, thorough)] = dict(D.DOMAINS)[dn](thorough)
+  return _DOMS[(dn, thorough)]
+
+
+def domain_items (thorough):
+  step = 256 if thorough else 32
+  items = []
+  for dn, mk in D.DOMAINS:
+    n = len(get_domain(dn, thorough).frames)
+    items += [("V", dn, lo, min(n, lo + step), thorough) for lo in range(0, n, step)]
+  return items
+
+
+def _work_v (item):
+  from mc.env import boot
+  boot()
+  _, dn, lo, hi, thorough = item
+  dom = get_domain(dn, thorough)
+  if (dn, thorough) not in _BYNAME: _BYNAME[(dn, thorough)] = dict((f.name, f) for f in dom.frames)
+  byname = _BYNAME[(dn, thorough)]
+  tcp = R.corpus()[0]
+  mine = dom.frames[lo:hi]
+  pool = {}
+  for fr in mine:
+    pool[fr.name] = fr; nb = byname[dom.neighbour[fr.name]]; pool[nb.name] = nb
+  frames = list(pool.values()) + [tcp]
+  rep = Report(PID, "model_checking")
+  ck = Checker(rep, frames)
+  tc = RawTableChecker(rep, frames)
+  def by_label (fr):
+    nb = byname[dom.neighbour[fr.name]]
+    fields, app = R.extract(fr.data, fr.in_port)
+    out = {}
+    for lab, mb in domain_matches(fields, app, R.extract(nb.data, nb.in_port)[0], dom.axis):
+      if mb not in out.values(): out[lab] = mb
+    return out
+  def tables (fr, lab, mb):
+    if lab.startswith("exact"):
+      return [((mb, 1, exact_label(fr)), (ALL_MATCH, 0xffff, "all")), ((ALL_MATCH, 0xffff, "all"), (mb, 1, exact_label(fr)))]
+    if lab.endswith(("+deeper0", "+deeperv")): return [((mb, 1, "field+deeper"), (ALL_MATCH, 0xffff, "all"))]
+    return []
+  for fr in mine:
+    nb = byname[dom.neighbour[fr.name]]
+    nbl = None
+    for lab, mb in by_label(fr).items():
+      ck.check_match(mb, [fr, nb, tcp])
+      for i, t in enumerate(tables(fr, lab, mb)):
+        v = tc.check(t, fr, "V", record=False)
+        if v is None: continue
+        # is it this VALUE of the field, or the whole domain?  (the same table around the neighbouring value)
+        if nbl is None: nbl = by_label(nb)
+        nv = tc.check(tables(nb, lab, nbl[lab])[i], nb, "V", record=False) if lab in nbl else None
+        clause, what, rdata = v
+        if not (nv is not None and nv[0] == v[0]):
+          clause = clause.replace(key_frame(fr), fr.name); what = what.replace(key_frame(fr), fr.name)
+          rdata = dict(rdata, entries=[[h, p, l.replace(key_frame(fr), fr.name)] for h, p, l in rdata["entries"]])
+        rep.violation("%s:%s" % (PID, clause), what, rdata)
+  rep.extra["switch_rebuilds"] = ck.sw.resets + tc.sw.resets
+  return rep
+
+
+# ---------------------------------------------------------------------------------------------
+# exactness lattice (part E)
+# ---------------------------------------------------------------------------------------------
+E_FRAMES = ("tcp", "vlan-udp", "icmp", "ip-gre", "arp-req", "other")
+AXIS = [(c, 0) for c in range(64)] + [(0, c) for c in range(1, 64)]
+
+def part_e_words (thorough):
+  """[(wildcard-bit mask, nw_src counter, nw_dst counter, full?)]; full: every table form and both value variants."""
+  single = [1 << i for i in range(10)]
+  two = [0] + single + [a | b for a, b in itertools.combinations(single, 2)]
+  cp = [(a, b) for a in COUNTERS for b in COUNTERS]
+  out = {}
+  def add (m, cs, cd, full):
+    k = (m, cs, cd)
+    out[k] = out.get(k, False) or full
+  for cs, cd in AXIS: add(0, cs, cd, True)
+  for m in single:
+    for cs, cd in cp: add(m, cs, cd, True)
+  if thorough:
+    for m in two:
+      for cs, cd in AXIS + cp: add(m, cs, cd, True)
+    for m in range(1024):
+      for cs in (0, 1, 8, 31, 32):
+        for cd in (0, 1, 8, 31, 32): add(m, cs, cd, False)
+  else:
+    for m in two:
+      for cs, cd in ((0, 0), (8, 0), (0, 31)): add(m, cs, cd, False)
+  return [k + (v,) for k, v in out.items()]
+
+
+def part_e_tables (fr, v0, fields, mask, cs, cd, full, thorough):
+  """The tables for one wildcards word around one frame: E = the frame's exact match weakened by the word."""
+  w = word(mask, cs, cd)
+  x0 = W.match(wildcards=0, **fields)
+  xl = exact_label(fr)
+  es = [build(w, v0)]
+  if full:
+    c = build(w, v0, clean=True, masked=True)
+    if c != es[0]: es.append(c)
+  for e in es:
+    lab = xl if not w else "near-exact"
+    yield ((e, 1, lab), (ALL_MATCH, 0xffff, "all"))
+    yield ((ALL_MATCH, 0xffff, "all"), (e, 1, lab))
+    if e != x0: yield ((e, 0xffff, lab), (x0, 1, xl))
+    if full:
+      yield ((ALL_MATCH, 1, "all"), (e, 0xffff, lab))
+      if thorough and e != x0: yield ((x0, 1, xl), (e, 0xffff, lab))
+
+
+def prefix_probe_matches (v0, cs, cd):
+  """Single-entry matching for one pair of counters, every wildcard bit clear: the frame's addresses as they are and with the
+  bits below the prefix zeroed (must match); the lowest compared bit flipped (must not); the highest ignored bit flipped (must)."""
+  w = word(0, cs, cd)
+  yield build(w, v0)
+  yield build(w, v0, masked=True)
+  for f, n in (("nw_src", cs), ("nw_dst", cd)):
+    for b in (n, n - 1):
+      if 0 <= b < 32:
+        v = dict(v0); v[f] = v0[f] ^ (1 << b)
+        yield build(w, v)
+
+
+def _work_e (item):
+  from mc.env import boot
+  boot()
+  _, name, chunk, nchunks, thorough = item
+  fr = dict((f.name, f) for f in R.corpus())[name]
+  rep = Report(PID, "model_checking")
+  tc = RawTableChecker(rep, [fr])
+  ck = Checker(rep, [fr])
+  v0 = base_vector(fr)
+  fields = tc.ext[fr.name]
+  words = part_e_words(thorough)
+  seen = set()
+  for mask, cs, cd, full in words[chunk::nchunks]:
+    for t in part_e_tables(fr, v0, fields, mask, cs, cd, full, thorough):
+      tc.check(t, fr, "E")
+    if mask == 0 and fr.want["dl_type"] in (0x0800, 0x0806):
+      for mb in prefix_probe_matches(v0, cs, cd):
+        if mb in seen: continue
+        seen.add(mb)
+        ck.check_match(mb, [fr])
+  rep.extra["switch_rebuilds"] = ck.sw.resets + tc.sw.resets
+  return rep
 
 
 # ---------------------------------------------------------------------------------------------
@@ -997,7 +1360,7 @@ def _work_x (item):
 
 
 def _work (item):
-  return {"A": _work_a, "P": _work_p, "B": _work_b, "H": _work_h, "O": _work_o, "X": _work_x}[item[0]](item)
+  return {"A": _work_a, "P": _work_p, "B": _work_b, "H": _work_h, "O": _work_o, "X": _work_x, "V": _work_v, "E": _work_e}[item[0]](item)
 
 
 # ---------------------------------------------------------------------------------------------
@@ -1029,7 +1392,14 @@ def run (cfg):
     items += [("O", (f.name,)) for f in history_frames() if R.layout(f.data) is not None and R.layout(f.data).get("ihl", 20) == 20]
   if cfg.only in (None, "X"):
     items += [("X", (f.name,)) for f in all_frames()] + [("X", ("",))]
+  if cfg.only in (None, "V"):
+    items += domain_items(thorough)
+  ech = cfg.pick(4, 32)
+  if cfg.only in (None, "E"):
+    items += [("E", n, c, ech, thorough) for n in E_FRAMES for c in range(ech)]
   ncp = cfg.pick(2, 4)
+  doms = [get_domain(dn, thorough) for dn, _ in D.DOMAINS]
+  ewords = part_e_words(thorough)
   if thorough:
     a_rule = ("counters {0,32}^2 x {V0: the frame's own values, fields the frame lacks carrying non-zero garbage; V0 with wildcarded fields "
               "zeroed; S: V0 with one field replaced by a differing value (2 alternatives for dl_vlan/dl_type/nw_proto, bit 0 / bit 31 "
@@ -1066,15 +1436,36 @@ def run (cfg):
     "(frame, allowed entries, entry that forwarded) for B; read-only requests (%s) are sent between flow-mod and lookups for the A/P "
     "matches that are probed with every frame, for every X match (installed a second time) and in H between two rounds of lookups of all "
     "frames per table; (previous frame, frame, observation) and (frame, actions, allowed, observed) for H, "
-    "(frame, tag, field, observation of object, of bytes) for O"
+    "(frame, tag, field, observation of object, of bytes) for O.  V (value domains, mc/refs/c03_domains.py): %s; for each frame the "
+    "match on each field in which it differs from its neighbour in the domain (prerequisites specified): the frame's value, the "
+    "neighbour's value, and - for dl_type / nw_* - the same with all deeper-layer wildcard bits CLEAR (or one of TP_SRC/TP_DST clear) "
+    "carrying zeros / the frame's values or non-zero garbage, plus the exact match (wildcards 0) with zeros / garbage in the fields the "
+    "frame lacks; each probed with the frame, the neighbour and the TCP frame; the exact matches and the deeper-bits-clear matches also "
+    "at priority 1 beside a catch-all of priority 0xffff (both insertion orders for the exact ones); a lookup violation is keyed by the "
+    "value only if the same table around the neighbouring value is treated correctly.  E (exactness lattice): for each of the frames %s "
+    "the frame's exact match (fields the frame lacks carrying garbage; for the 'full' words also zeroed and prefix-masked) weakened by "
+    "each of %d wildcards words = {no bit} x every nw_src counter 0..63 and every nw_dst counter 0..63, {each single bit} x all %d "
+    "counter pairs of %s ('full' words), %s; tables per word: [E@1, all@0xffff] in both insertion orders, [E@0xffff, exact@1]%s, full "
+    "words also [all@1, E@0xffff]; the frame must leave through an entry of maximal effective priority where only the wildcards word 0 "
+    "outranks, an entry with a wildcard the specification honours (bit of a field whose prerequisites the match specifies, address "
+    "counter 1..63) ranks by its priority field, an entry whose only wildcard bits sit on prerequisite-ignored fields may do either; "
+    "for the {no bit} words on IP/ARP frames also single-entry matching: addresses as sent / masked, lowest compared bit flipped, "
+    "highest ignored bit flipped.  distinct for V/E tables = (part, frame kind, (exactness, honoured wildcards, priority, matches) per "
+    "entry, forwarding entry)"
     % (len(frames), ", ".join(f.name for f in frames), a_rule, p_rule, len(COUNTERS) ** 2, list(COUNTERS),
        "/".join(map(str, FLIPS_ALL)), p_vec, depth, len(lookup_alphabet()),
        ", ".join(m for m, _ in lookup_alphabet()), list(PRIORITIES), OUT, len(frames),
        cfg.pick(2, 3), len(history_tables(thorough)), len(history_frames()), ", ".join(f.name for f in R.near_collisions()),
        "; for tables of <=2 entries also a de Bruijn history containing every ordered triple of frames" if thorough else "",
        len(VLAN_ACTIONS), list(TAGS), len(all_frames()), len(R.boundary_frames()), ", ".join(f.name for f in R.boundary_frames()),
-       len(constant_matches()), len(all_frames()), len(R.truncations()), "/".join(Sw.READS)))
-  rep.bound = dict(wildcard_bit_words=1024, counter_pairs_A=ncp, counter_pairs_P=len(COUNTERS) ** 2, deviations=cfg.pick(1, 2),
+       len(constant_matches()), len(all_frames()), len(R.truncations()), "/".join(Sw.READS),
+       "; ".join("%s (%d frames)" % (d.name, len(d.frames)) for d in doms), "/".join(E_FRAMES), len(ewords),
+       len(COUNTERS) ** 2, list(COUNTERS),
+       "every word of <=2 bits x every single-axis counter and counter pair; all 2^10 bit words x counters {0,1,8,31,32}^2" if thorough
+       else "every word of <=2 bits x counters (0,0)/(8,0)/(0,31)",
+       " in both insertion orders" if thorough else ""))
+  rep.bound = dict(value_domain_frames=sum(len(d.frames) for d in doms), near_exact_words=len(ewords), near_exact_frames=len(E_FRAMES),
+                   wildcard_bit_words=1024, counter_pairs_A=ncp, counter_pairs_P=len(COUNTERS) ** 2, deviations=cfg.pick(1, 2),
                    frames=len(frames), table_entries=depth, lookup_alphabet=len(kinds),
                    history_tables=len(history_tables(thorough)), history_frames=len(history_frames()), history_adjacent=cfg.pick(2, 3))
   rep.assumptions = [
@@ -1083,6 +1474,10 @@ def run (cfg):
     "fields a frame does not have are 0 (specification flow chart: 'set all others to zero'); dl_vlan_pcp of an untagged frame is 0",
     "nw_tos is the DSCP part of the ToS byte (upper six bits)",
     "an entry is an exact match iff its wildcards word is 0 on the wire",
+    "parts V/E: an entry whose wildcards word is not 0 but whose wildcard bits all sit on fields the prerequisite rule ignores "
+    "(e.g. TP_SRC set in an ARP match) may rank as an exact match or by its priority field - the statement does not say",
+    "value domains: the IPv4 protocol, ARP opcode, ToS byte and ICMP type/code are enumerated completely; VLAN ids, ports and Ethernet "
+    "types in the quick tier by every single bit, the extremes and the registered / parser-relevant values (thorough: completely)",
     "among matching entries of equal effective priority either may forward",
     "VLAN-tagged LLC frames and SNAP with a non-zero OUI are not in the corpus (specification silent)",
     "default switch configuration (fragments handled normally, no port flags)",
@@ -1128,7 +1523,24 @@ def replay (cfg, data):
       lines.append("%s: %s" % (k, v["what"]))
     return bool(rep.violations), "\n".join(lines)
   frames = dict((f.name, f) for f in all_frames() + R.truncations())
-  fr = frames[data["frame"]]
+  fr = frames.get(data["frame"]) or D.frame_by_name(data["frame"])
+  if data["kind"] == "rawtable":
+    tc = RawTableChecker(rep, [fr])
+    entries = tuple((bytes.fromhex(h), int(p), l) for h, p, l in data["entries"])
+    fields, app = R.extract(fr.data, fr.in_port)
+    lines = ["frame %s on port %d: %s" % (fr.name, fr.in_port, fr.data.hex()),
+             "  fields per specification: " + ", ".join("%s=%s" % (f, fields[f].hex() if isinstance(fields[f], bytes) else hex(fields[f]))
+                                                       for f in FIELDS if f in app)]
+    for i, (mb, prio, lab) in enumerate(entries):
+      m, kind, wild = tc.judge(mb)
+      lines.append("entry %d: %s priority %d -> port %d  (wire %s; matches this frame: %s; %s%s)"
+                   % (i, lab, prio, OUT + i, mb.hex(), ref_matches(m, fields), kind,
+                      ", wildcards the specification honours: " + "+".join(wild) if wild else ""))
+    tc.check(entries, fr, "replay")
+    for i, (mb, prio, lab) in enumerate(entries): tc.sw.install(mb, prio, OUT + i)
+    lines.append("  switch: rx -> %r" % (tc.sw.probe(fr.data, fr.in_port),))
+    for k, v in sorted(rep.violations.items()): lines.append("%s: %s" % (k, v["what"]))
+    return bool(rep.violations), "\n".join(lines)
   if data["kind"] == "object":
     tag = data["tag"] if isinstance(data["tag"], str) else tuple(data["tag"])
     check_object(rep, Sw(), fr, tag)
